@@ -42,7 +42,7 @@ def check_line(row):
     if obj["thread_id"] != row["thread_id"]:
         return "thread_id: %r vs %r" % (obj["thread_id"], row["thread_id"])
     want_mdc = {s(k): s(v) for k, v in exp["mdc"]}
-    if obj["mdc"] != want_mdc:
+    if obj["mdc"] != want_mdc and not (row.get("mdc_may_also_hold_late") and obj["mdc"] == {"late": "x"}):
         return "mdc: %r vs %r" % (obj["mdc"], want_mdc)
     try:
         t = obj["time"]
